@@ -74,7 +74,7 @@ def StrSpec (d : Deps) (body text : List Nat) : Prop :=
 def NumSpec (d : Deps) (tok : List Nat) (kind : NumKind) (bits : Nat) : Prop :=
   kind ≠ .notANumber ∧
   (∃ x xs, tok = x :: xs ∧ x ≠ 123 ∧ x ≠ 91 ∧ x ≠ 34 ∧ x ≠ 116 ∧ x ≠ 102 ∧ x ≠ 110 ∧ isDelim x = false) ∧
-  ∀ (c : Array Nat) (o : Nat), At c o tok → FollowOK c (o + tok.length) →
+  ∀ (c : Array Nat) (o : Nat), c.size < 2 ^ 32 → At c o tok → FollowOK c (o + tok.length) →
     d.strToNum c o c.size = .ok ⟨kind, bits, o + tok.length⟩
 
 mutual
@@ -166,10 +166,10 @@ theorem ok_inj {α} {a b : α} (h : (pure a : M α) = .ok b) : a = b := by
   simp [pure, Except.pure] at h; exact h
 
 mutual
-theorem parseValue_print (d : Deps) : ∀ (doc : JDoc) (c : Array Nat) (fuel o : Nat) (r : JVal × Nat), WF d doc →
+theorem parseValue_print (d : Deps) : ∀ (doc : JDoc) (c : Array Nat) (fuel o : Nat) (r : JVal × Nat), c.size < 2 ^ 32 → WF d doc →
     At c o doc.print → FollowOK c (o + doc.print.length) → parseValue d c fuel o = .ok r →
     r = (doc.denote, o + doc.print.length)
-  | .arr ws0 items, c, fuel, o, r, hwf, hat, _, h => by
+  | .arr ws0 items, c, fuel, o, r, hsz, hwf, hat, _, h => by
     obtain ⟨hws0, hitems⟩ := hwf
     simp only [JDoc.print] at hat
     obtain ⟨hlt, hc, hat1⟩ := At.cons (by simpa using hat)
@@ -207,10 +207,10 @@ theorem parseValue_print (d : Deps) : ∀ (doc : JDoc) (c : Array Nat) (fuel o :
           simp only [cESquare, ne_eq, hx93, not_false_eq_true, ↓reduceIte] at h
           have hat3 : At c (o + 1 + ws0.length) (printItems ((wsB, doc, wsA) :: rest) true ++ [93]) := by
             simpa [printItems, hx] using hat2
-          have := arrLoop_print d ((wsB, doc, wsA) :: rest) c fuel (o + 1 + ws0.length) [] r (by simp) hitems hat3 h
+          have := arrLoop_print d ((wsB, doc, wsA) :: rest) c fuel (o + 1 + ws0.length) [] r hsz (by simp) hitems hat3 h
           rw [this]
           simp [JDoc.denote, JDoc.print]; omega
-  | .obj ws0 ms, c, fuel, o, r, hwf, hat, _, h => by
+  | .obj ws0 ms, c, fuel, o, r, hsz, hwf, hat, _, h => by
     obtain ⟨hws0, hms⟩ := hwf
     simp only [JDoc.print] at hat
     obtain ⟨hlt, hc, hat1⟩ := At.cons (by simpa using hat)
@@ -246,10 +246,10 @@ theorem parseValue_print (d : Deps) : ∀ (doc : JDoc) (c : Array Nat) (fuel o :
           simp only [cECurly, ne_eq, Nat.reduceEqDiff, not_false_eq_true, ↓reduceIte] at h
           have hat3 : At c (o + 1 + ws0.length) (printMembers ((wsB, kbody, ktext, ws1, ws2, doc, wsA) :: rest) true ++ [125]) := by
             simpa [printMembers] using hat2
-          have := objLoop_print d ((wsB, kbody, ktext, ws1, ws2, doc, wsA) :: rest) c fuel (o + 1 + ws0.length) [] r (by simp) hms hat3 h
+          have := objLoop_print d ((wsB, kbody, ktext, ws1, ws2, doc, wsA) :: rest) c fuel (o + 1 + ws0.length) [] r hsz (by simp) hms hat3 h
           rw [this]
           simp [JDoc.denote, JDoc.print]; omega
-  | .null, c, fuel, o, r, _, hat, _, h => by
+  | .null, c, fuel, o, r, _, _, hat, _, h => by
     simp only [JDoc.print] at hat
     obtain ⟨hlt, hc, hat1⟩ := At.cons hat
     cases fuel with
@@ -262,7 +262,7 @@ theorem parseValue_print (d : Deps) : ∀ (doc : JDoc) (c : Array Nat) (fuel o :
       simp only [List.isEmpty_nil, ↓reduceIte] at h
       rw [← ok_inj h]
       simp [JDoc.denote, JDoc.print, nullTail]
-  | .tru, c, fuel, o, r, _, hat, _, h => by
+  | .tru, c, fuel, o, r, _, _, hat, _, h => by
     simp only [JDoc.print] at hat
     obtain ⟨hlt, hc, hat1⟩ := At.cons hat
     cases fuel with
@@ -275,7 +275,7 @@ theorem parseValue_print (d : Deps) : ∀ (doc : JDoc) (c : Array Nat) (fuel o :
       simp only [List.isEmpty_nil, ↓reduceIte] at h
       rw [← ok_inj h]
       simp [JDoc.denote, JDoc.print, trueTail]
-  | .fals, c, fuel, o, r, _, hat, _, h => by
+  | .fals, c, fuel, o, r, _, _, hat, _, h => by
     simp only [JDoc.print] at hat
     obtain ⟨hlt, hc, hat1⟩ := At.cons hat
     cases fuel with
@@ -288,7 +288,7 @@ theorem parseValue_print (d : Deps) : ∀ (doc : JDoc) (c : Array Nat) (fuel o :
       simp only [List.isEmpty_nil, ↓reduceIte] at h
       rw [← ok_inj h]
       simp [JDoc.denote, JDoc.print, falseTail]
-  | .num tok kind bits, c, fuel, o, r, hwf, hat, hf, h => by
+  | .num tok kind bits, c, fuel, o, r, hsz, hwf, hat, hf, h => by
     obtain ⟨hk, ⟨x, xs, htok, h1, h2, h3, h4, h5, h6, _⟩, hspec⟩ := hwf
     simp only [JDoc.print] at hat hf
     obtain ⟨hlt, hc, _⟩ := At.cons (by rw [htok] at hat; exact hat)
@@ -298,14 +298,14 @@ theorem parseValue_print (d : Deps) : ∀ (doc : JDoc) (c : Array Nat) (fuel o :
       unfold parseValue at h
       simp only [show ¬ o ≥ c.size by omega, ↓reduceIte, rd_ok c o hlt, bind, Except.bind, hc, cSCurly, cSSquare, cQuote,
         h1, h2, h3, h4, h5, h6] at h
-      rw [hspec c o hat hf] at h
+      rw [hspec c o hsz hat hf] at h
       simp only [] at h
       cases kind with
       | notANumber => exact absurd rfl hk
       | natural => simp only [] at h; rw [← ok_inj h]; simp [JDoc.denote, JDoc.print]
       | integer => simp only [] at h; rw [← ok_inj h]; simp [JDoc.denote, JDoc.print]
       | real => simp only [] at h; rw [← ok_inj h]; simp [JDoc.denote, JDoc.print]
-  | .str body text, c, fuel, o, r, hwf, hat, _, h => by
+  | .str body text, c, fuel, o, r, _, hwf, hat, _, h => by
     simp only [JDoc.print] at hat
     obtain ⟨hlt, hc, hat1⟩ := At.cons (by simpa using hat)
     obtain ⟨stream, hu, hs⟩ := hwf c (o + 1) hat1
@@ -319,10 +319,10 @@ theorem parseValue_print (d : Deps) : ∀ (doc : JDoc) (c : Array Nat) (fuel o :
       rw [← ok_inj h]
       simp [JDoc.denote, JDoc.print]; omega
 theorem arrLoop_print (d : Deps) : ∀ (items : List (Ws × JDoc × Ws)) (c : Array Nat) (fuel o : Nat) (acc : List JVal) (r : JVal × Nat),
-    items ≠ [] → WFItems d items → At c o (printItems items true ++ [93]) → arrLoop d c fuel o acc = .ok r →
+    c.size < 2 ^ 32 → items ≠ [] → WFItems d items → At c o (printItems items true ++ [93]) → arrLoop d c fuel o acc = .ok r →
     r = (.arr (acc.reverse ++ denoteItems items), o + (printItems items true).length + 1)
-  | [], c, fuel, o, acc, r, hne, _, hat, h => absurd rfl hne
-  | (wsB, doc, wsA) :: rest, c, fuel, o, acc, r, _, hwf, hat, h => by
+  | [], c, fuel, o, acc, r, _, hne, _, hat, h => absurd rfl hne
+  | (wsB, doc, wsA) :: rest, c, fuel, o, acc, r, hsz, _, hwf, hat, h => by
     obtain ⟨_, hdoc, hwsA, hrest⟩ := hwf
     obtain ⟨x, xs, hx, hxd⟩ := print_head d doc hdoc
     have hat0 : At c o (doc.print ++ (wsA ++ (printItems rest false ++ [93]))) := by
@@ -340,7 +340,7 @@ theorem arrLoop_print (d : Deps) : ∀ (items : List (Ws × JDoc × Ws)) (c : Ar
       cases hv : parseValue d c fuel o with
       | error e => rw [hv] at h; simp [bind, Except.bind] at h
       | ok r1 =>
-        have hr1 := parseValue_print d doc c fuel o r1 hdoc hatd hfollow hv
+        have hr1 := parseValue_print d doc c fuel o r1 hsz hdoc hatd hfollow hv
         subst hr1
         rw [hv] at h
         simp only [bind, Except.bind] at h
@@ -371,15 +371,15 @@ theorem arrLoop_print (d : Deps) : ∀ (items : List (Ws × JDoc × Ws)) (c : Ar
           rw [ht3] at h
           have hat6 : At c (o + doc.print.length + wsA.length + 1 + wsB2.length) (printItems ((wsB2, doc2, wsA2) :: rest2) true ++ [93]) := by
             simpa [printItems, hx2] using hat5
-          have := arrLoop_print d ((wsB2, doc2, wsA2) :: rest2) c fuel _ (doc.denote :: acc) r (by simp) hrest hat6 h
+          have := arrLoop_print d ((wsB2, doc2, wsA2) :: rest2) c fuel _ (doc.denote :: acc) r hsz (by simp) hrest hat6 h
           rw [this]
           simp [denoteItems, printItems]; omega
 theorem objLoop_print (d : Deps) : ∀ (ms : List (Ws × List Nat × List Nat × Ws × Ws × JDoc × Ws)) (c : Array Nat) (fuel o : Nat)
     (acc : List (List Nat × JVal)) (r : JVal × Nat),
-    ms ≠ [] → WFMembers d ms → At c o (printMembers ms true ++ [125]) → objLoop d c fuel o acc = .ok r →
+    c.size < 2 ^ 32 → ms ≠ [] → WFMembers d ms → At c o (printMembers ms true ++ [125]) → objLoop d c fuel o acc = .ok r →
     r = (.obj (denoteMembers ms acc), o + (printMembers ms true).length + 1)
-  | [], c, fuel, o, acc, r, hne, _, hat, h => absurd rfl hne
-  | (wsB, kbody, ktext, ws1, ws2, doc, wsA) :: rest, c, fuel, o, acc, r, _, hwf, hat, h => by
+  | [], c, fuel, o, acc, r, _, hne, _, hat, h => absurd rfl hne
+  | (wsB, kbody, ktext, ws1, ws2, doc, wsA) :: rest, c, fuel, o, acc, r, hsz, _, hwf, hat, h => by
     obtain ⟨_, hkey, hws1, hws2, hdoc, hwsA, hrest⟩ := hwf
     obtain ⟨x, xs, hx, hxd⟩ := print_head d doc hdoc
     have hat0 : At c o (34 :: ((kbody ++ [34]) ++ (ws1 ++ 58 :: (ws2 ++ (doc.print ++ (wsA ++ (printMembers rest false ++ [125]))))))) := by
@@ -414,7 +414,7 @@ theorem objLoop_print (d : Deps) : ∀ (ms : List (Ws × List Nat × List Nat ×
       cases hv : parseValue d c fuel (o + 1 + (kbody ++ [34]).length + ws1.length + 1 + ws2.length) with
       | error e => rw [hv] at h; simp at h
       | ok r1 =>
-        have hr1 := parseValue_print d doc c fuel _ r1 hdoc hatd hfollow hv
+        have hr1 := parseValue_print d doc c fuel _ r1 hsz hdoc hatd hfollow hv
         subst hr1
         rw [hv] at h
         simp only [] at h
@@ -444,7 +444,7 @@ theorem objLoop_print (d : Deps) : ∀ (ms : List (Ws × List Nat × List Nat ×
           have hat10 : At c (o + 1 + (kbody ++ [34]).length + ws1.length + 1 + ws2.length + doc.print.length + wsA.length + 1 + wsB2.length)
               (printMembers ((wsB2, kbody2, ktext2, ws12, ws22, doc2, wsA2) :: rest2) true ++ [125]) := by
             simpa [printMembers] using hat9
-          have := objLoop_print d ((wsB2, kbody2, ktext2, ws12, ws22, doc2, wsA2) :: rest2) c fuel _ (objInsert acc ktext doc.denote) r (by simp) hrest hat10 h
+          have := objLoop_print d ((wsB2, kbody2, ktext2, ws12, ws22, doc2, wsA2) :: rest2) c fuel _ (objInsert acc ktext doc.denote) r hsz (by simp) hrest hat10 h
           rw [this]
           simp [denoteMembers, printMembers]; omega
 end
@@ -487,7 +487,7 @@ theorem parse_print (d : Deps) (hd : DepsSafe d) (doc : JDoc) (hwf : WF d doc) (
   simp only [hne, ↓reduceIte, ht]
   obtain ⟨v, o', hv, _, _, _⟩ := (all_good d hd _ (by rw [List.size_toArray]; exact hsz0) (fuelFor (wsL ++ doc.print ++ wsR).toArray)).1 (0 + wsL.length)
     (by rw [hsz]; omega) (by unfold needV fuelFor; omega)
-  have := parseValue_print d doc _ _ _ _ hwf hatd hfollow hv
+  have := parseValue_print d doc _ _ _ _ (by rw [List.size_toArray]; exact hsz0) hwf hatd hfollow hv
   rw [hv]
   simp only [bind, Except.bind]
   injection this with hv1 ho1
